@@ -22,8 +22,8 @@ from ..core import pool_map
 
 MODULE = "modem/Ofdm.tla"
 DEVS = ["FreqResponseTruncates", "DcNotSkipped", "MapOffByOne", "CpFromHead", "ScaleNotInverted", "SymbolsFloor",
-        "MemoryExceedsCp", "MemoNumbersByUsedOnly", "RejectedSetHalfUpdates"]
-INVS = ["ObjectCoherent", "IndexMap", "ParamLaw", "PadLaw", "LenLaw", "PrefixIsTail", "DcAndGuardsEmpty", "CircularUnderCP",
+        "MemoryExceedsCp", "MemoNumbersByUsedOnly", "RejectedSetHalfUpdates", "PadKeepsOldData", "DemodScalesArgument"]
+INVS = ["ObjectCoherent", "ArgumentsUnchanged", "EarlierResultsUnchanged", "IndexMap", "ParamLaw", "PadLaw", "LenLaw", "PrefixIsTail", "DcAndGuardsEmpty", "CircularUnderCP",
         "WindowAligned", "UnmapReadsMap", "FreqIsHTimesX", "RoundTrip", "OneTapExact"]
 # which laws refute which deviation (TLC stops at the first violated invariant of the list it finds)
 DEV_REFUTED_BY = {
@@ -37,14 +37,16 @@ DEV_REFUTED_BY = {
     # history flags: refuted on the live-object machine (configs = the valid set of the history)
     "MemoNumbersByUsedOnly": ({(4, 1, 4), (8, 2, 4)}, {"IndexMap", "DcAndGuardsEmpty"}),
     "RejectedSetHalfUpdates": ({(4, 1, 4), (8, 2, 4)}, {"ObjectCoherent"}),
+    "PadKeepsOldData": ({(4, 1, 4), (8, 2, 4)}, {"PadLaw"}),
+    "DemodScalesArgument": ({(4, 1, 2)}, {"ArgumentsUnchanged"}),
 }
-HIST_DEVS = {"MemoNumbersByUsedOnly", "RejectedSetHalfUpdates"}
+HIST_DEVS = {"MemoNumbersByUsedOnly", "RejectedSetHalfUpdates", "PadKeepsOldData"}
 # the quick history alphabet: the same used count under the all-carriers branch and under the centred branch at two fft
 # sizes (both orders occur), a change of every parameter, the smallest size; rejected calls: odd used, used > fft (both
 # with a valid <<fft, cp>> that differs from most current ones), cp > fft, used = 0
 HIST_VALID = [(4, 1, 4), (8, 2, 4), (8, 3, 8), (4, 0, 2), (2, 2, 2)]
 HIST_BAD = [(8, 1, 3), (4, 2, 6), (8, 9, 4), (2, 1, 0)]
-ACTIONS = ["Construct", "SetParameters", "StartLive", "Start", "MapStar", "ParamStar", "Pad", "Map", "Ifft", "AddCP", "Loop", "Transmit", "Crop", "RemoveCP",
+ACTIONS = ["Construct", "SetParameters", "UseObj", "StartLive", "Start", "MapStar", "ParamStar", "Pad", "Map", "Ifft", "AddCP", "Loop", "Transmit", "Crop", "RemoveCP",
            "Fft", "Unmap", "Equalize"]
 TOL = 1e-9
 # 16+ JVMs run side by side (one TLC worker each): keep their GC / JIT helper threads from oversubscribing the cores
@@ -53,7 +55,7 @@ FID = "FreqResponseTruncates"
 
 
 def model(configs=(), mapffts=(), paramffts=(), lenmode="two", patmode="dense", ndense=1, laymode="three",
-          block=False, seed=0, dev=(), emit=True, histvalid=(), histbad=(), histmax=0, histfirst=None):
+          block=False, seed=0, dev=(), emit=True, histvalid=(), histbad=(), histmax=0, histfirst=None, usemax=1):
     d = {k: (k in dev) for k in DEVS}
     st = lambda xs: tlc.tla(set(xs)) if xs else "{}"
     defs = {"Configs": st([tuple(c) for c in configs]), "MapFfts": st(mapffts), "ParamFfts": st(paramffts),
@@ -61,7 +63,7 @@ def model(configs=(), mapffts=(), paramffts=(), lenmode="two", patmode="dense", 
             "HistValid": st([tuple(c) for c in histvalid]), "HistBad": st([tuple(c) for c in histbad]), "Dev": tlc.tla(d)}
     cfg = tlc.cfg_text(constants={"LenMode": tlc.tla(lenmode), "PatMode": tlc.tla(patmode), "NDense": str(ndense),
                                   "LayMode": tlc.tla(laymode), "Block": tlc.tla(bool(block)), "Seed": str(seed % 1000),
-                                  "HistMax": str(histmax)},
+                                  "HistMax": str(histmax), "UseMax": str(usemax)},
                        defs=defs, invariants=INVS + (["Emit"] if emit else []))
     return cfg, defs
 
@@ -159,7 +161,67 @@ class Bad(Exception):
         self.fid = fid
 
 
-def run_modulator(m, o=None):
+# ------------------------------------------------------------------ call discipline (notes/CALL_DISCIPLINE.md)
+SHAPE_OBS = {}
+
+
+class Ledger:
+    """results handed out earlier by the objects under test: they must still be what they were (EarlierResultsUnchanged)"""
+
+    def __init__(self):
+        self.items = []
+
+    def keep(self, label, res):
+        self.items.append((label, res, np.array(res, copy=True)))
+
+    def verify(self):
+        for label, res, snap in self.items:
+            if res.shape != snap.shape or not np.array_equal(res, snap, equal_nan=True):
+                raise Bad(f"EarlierResultsUnchanged: the array returned by {label} changed after later calls")
+
+
+def _same(a, b):
+    return a.shape == b.shape and bool(np.allclose(a, b, rtol=0, atol=1e-12, equal_nan=True))
+
+
+def call(label, fn, args, req=(), ledger=None, readonly=False):
+    """Generic wrapper around every public call of the replay.  ArgumentsUnchanged: every ndarray argument has the same
+    dtype and samples afterwards (a changed SHAPE is only counted - the unpatched demodulate reshapes its argument);
+    the result does not alias an argument.  RepeatableCall: a second call with the SAME argument objects returns the same
+    result.  EarlierResultsUnchanged: the result goes into the ledger and is re-checked after later calls.
+    `readonly`: array arguments are handed over write-protected (an in-place writer raises)."""
+    arrs = [a for a in args if isinstance(a, np.ndarray)]
+    snaps = [(a, a.copy(), a.dtype, a.shape) for a in arrs]
+    if readonly:
+        for a in arrs:
+            a.setflags(write=False)
+
+    def unchanged(when):
+        for a, c, dt, shp in snaps:
+            if a.dtype != dt or a.size != c.size or not np.array_equal(a.ravel(), c.ravel(), equal_nan=True):
+                raise Bad(f"ArgumentsUnchanged: {label} modified the samples of the caller's array ({when})")
+            if a.shape != shp:
+                SHAPE_OBS[label] = SHAPE_OBS.get(label, 0) + 1
+    with np.errstate(all="ignore"):
+        res = np.asarray(fn(*args))
+    unchanged("first call")
+    for a in arrs:
+        if np.shares_memory(res, a):
+            raise Bad(f"EarlierResultsUnchanged: the result of {label} shares memory with its argument")
+    if "RepeatableCall" in req:
+        with np.errstate(all="ignore"):
+            res2 = np.asarray(fn(*args))
+        if not _same(res, res2):
+            raise Bad(f"RepeatableCall: a second {label} call with the same argument object returns another result")
+        unchanged("second call")
+        if ledger is not None:
+            ledger.keep(label + " (2nd)", res2)
+    if ledger is not None:
+        ledger.keep(label, res)
+    return res
+
+
+def run_modulator(m, o=None, ledger=None):
     """m: step -> emitted edge of the modulator half.  Returns (ofdm object, emitted signal) or raises Bad.
     `o`: the live object of a history (already configured through the calls of the history); else a fresh one."""
     from pyphysim.modulators.ofdm import OFDM
@@ -178,7 +240,7 @@ def run_modulator(m, o=None):
         g = np.asarray(prep(x.copy()))
         if not close(g, grid):
             raise Bad("Pad/Map: _prepare_input_signal differs from the specified grid (zero padding / bin of each element)")
-    tx = np.asarray(o.modulate(x.copy()))
+    tx = call("modulate", o.modulate, [x.copy()], m["cp"].get("req", ()), ledger)
     want_len = len(m["cp"]["out"]["txi"])
     if tx.shape != (want_len,):
         raise Bad(f"Len: modulate returned {tx.shape} samples, specified {want_len} = {ns} symbols x (fft+cp)")
@@ -203,7 +265,7 @@ def run_modulator(m, o=None):
     return o, tx, x
 
 
-def run_receiver(o, tx, m, d, known):
+def run_receiver(o, tx, m, d, known, ledger=None):
     """d: step -> emitted edge of one receiver chain (loopback or one channel).  Mismatches that have the signature of
     the listed finding are appended to `known` and the chain continues; anything else raises Bad."""
     from pyphysim.modulators.ofdm import OfdmOneTapEqualizer
@@ -214,14 +276,14 @@ def run_receiver(o, tx, m, d, known):
     ch = d["rx"]["ch"]
     n = len(tx)
     if not ch["taps"]:
-        dem = np.asarray(o.demodulate(tx.copy()))
+        dem = call("demodulate", o.demodulate, [tx.copy()], d["dem"].get("req", ()), ledger)
         if not close(dem, padded):
             raise Bad("RoundTrip: demodulate(modulate(x)) is not x followed by zeros")
         if exact and not close(dem, cyc(d["dem"]["out"]["dem"]) * scale_of(d["dem"])):
             raise Bad("RoundTrip: demodulated values differ from the specified ones")
         return
     chan, vals, delays = make_channel(ch["taps"], N + cp, ch["block"])
-    rxfull = np.asarray(chan.corrupt_data(tx.copy()))
+    rxfull = call("corrupt_data", chan.corrupt_data, [tx.copy()], d["chan"].get("req", ()), ledger)
     mem = d["chan"]["out"]["mem"]
     if rxfull.shape != (n + mem,):
         raise Bad(f"Channel: output has {rxfull.shape} samples, specified {n} + memory {mem}")
@@ -249,15 +311,15 @@ def run_receiver(o, tx, m, d, known):
             else:
                 raise Bad("Channel: get_freq_response(fft) differs from the DFT of the reported taps")
     rx = rxfull[:n].copy()
-    dem = np.asarray(o.demodulate(rx))
+    dem = call("demodulate", o.demodulate, [rx], d["dem"].get("req", ()), ledger)
     if dem.shape != (ns * u,):
         raise Bad(f"Unmap: demodulate returned {dem.shape}, specified {ns * u}")
     if exact and not close(dem, cyc(d["dem"]["out"]["dem"]) * scale_of(d["dem"])):
         raise Bad("RemoveCP/Fft/Unmap: demodulated values differ from the specified ones")
     if "eq" not in d:
         return
-    with np.errstate(all="ignore"):
-        eq = np.asarray(OfdmOneTapEqualizer(o).equalize_data(dem.copy(), ir))
+    eqz = OfdmOneTapEqualizer(o)
+    eq = call("equalize_data", eqz.equalize_data, [dem.copy(), ir], d["eq"].get("req", ()), ledger)
     if not close(eq, gint(d["eq"]["out"]["exp"])):
         if d["eq"]["out"]["corner"]:
             if exact:
@@ -275,7 +337,7 @@ def run_receiver(o, tx, m, d, known):
         raise Bad("OneTapExact: equalised symbols are not the transmitted symbols followed by zeros")
 
 
-def run_random(o, m, d, rng, known):
+def run_random(o, m, d, rng, known, ledger=None):
     """(rel) The same configuration, data length and tap delays with RANDOM complex data and taps (not on the integer
     lattice).  No oracle is needed: the expectation is the property itself - the symbols followed by zeros."""
     from pyphysim.modulators.ofdm import OfdmOneTapEqualizer
@@ -283,10 +345,13 @@ def run_random(o, m, d, rng, known):
     ns = m["pad"]["out"]["ns"]
     x = rng.uniform(-1, 1, L) + 1j * rng.uniform(-1, 1, L)
     want = np.concatenate([x, np.zeros(ns * u - L)])
-    tx = np.asarray(o.modulate(x.copy()))
+    # arguments are handed over write-protected; the data as a strided (non-contiguous) view
+    xs = np.zeros(2 * L, dtype=complex)
+    xs[::2] = x
+    tx = call("modulate", o.modulate, [xs[::2]], m["cp"].get("req", ()), ledger, readonly=True)
     ch = d["rx"]["ch"]
     if not ch["taps"]:
-        if not close(np.asarray(o.demodulate(tx.copy())), want):
+        if not close(call("demodulate", o.demodulate, [tx.copy()], d["dem"].get("req", ()), ledger, readonly=True), want):
             raise Bad("RoundTrip (random complex data): demodulate(modulate(x)) is not x followed by zeros")
         return
     if "eq" not in d:
@@ -296,9 +361,10 @@ def run_random(o, m, d, rng, known):
     vals = np.concatenate([[3 * np.exp(2j * np.pi * rng.uniform())],
                            rng.uniform(0.2, 1, k - 1) * np.exp(2j * np.pi * rng.uniform(size=k - 1))])
     chan, _, _ = make_channel(ch["taps"], N + cp, ch["block"], vals)
-    rx = np.asarray(chan.corrupt_data(tx.copy()))[:len(tx)].copy()
-    with np.errstate(all="ignore"):
-        eq = np.asarray(OfdmOneTapEqualizer(o).equalize_data(np.asarray(o.demodulate(rx)), chan.get_last_impulse_response()))
+    rx = call("corrupt_data", chan.corrupt_data, [tx.copy()], d["chan"].get("req", ()), ledger, readonly=True)[:len(tx)].copy()
+    dem = call("demodulate", o.demodulate, [rx], d["dem"].get("req", ()), ledger, readonly=True)
+    eq = call("equalize_data", OfdmOneTapEqualizer(o).equalize_data, [dem, chan.get_last_impulse_response()],
+              d["eq"].get("req", ()), ledger, readonly=True)
     if not close(eq, want):
         if d["eq"]["out"]["corner"]:
             known.append("OneTapExact fails for cp = fft = memory (random complex taps): truncated frequency response")
@@ -306,13 +372,14 @@ def run_random(o, m, d, rng, known):
         raise Bad("OneTapExact (random complex data and taps): equalised symbols are not the transmitted symbols")
 
 
-def check_chain(case, o=None):
+def check_chain(case, o=None, ledger=None):
     """case = {"mod": {step: edge}, "rcv": [ {step: edge}, ... ]} -> list of (what, fid, receiver index)"""
     m = case["mod"]
     bad = []
     rng = np.random.RandomState((case.get("seed", 0) * 7919 + sum((i + 1) * int(v) for i, v in enumerate(m["input"]["id"][:4]))) % (2 ** 31))
     try:
-        o, tx, _ = run_modulator(m, o)
+        ledger = Ledger() if ledger is None else ledger
+        o, tx, _ = run_modulator(m, o, ledger)
     except Bad as b:
         return [(b.what, b.fid, -1)], 0
     except Exception as ex:  # the real code must not raise on a valid configuration
@@ -321,8 +388,9 @@ def check_chain(case, o=None):
     for i, d in enumerate(case["rcv"]):
         known = []
         try:
-            run_receiver(o, tx, m, d, known)
-            run_random(o, m, d, rng, known)
+            run_receiver(o, tx, m, d, known, ledger)
+            run_random(o, m, d, rng, known, ledger)
+            ledger.verify()
             okc += 0 if known else 1
         except Bad as b:
             bad.append((b.what, b.fid, i))
@@ -333,42 +401,54 @@ def check_chain(case, o=None):
 
 
 def check_history(h):
-    """h = {"steps": [{"call": edge, "chains": [chain, ...]}, ...], "seed": n}: ONE live object; after every call
-    (constructor, accepted or rejected set_parameters) its parameters and a full chain are compared with what the
-    history demands.  Returns ([(what, fid)], number of chains executed, index of the failing step or -1)."""
+    """h = {"steps": [{"call": edge, "chains": [chain]}, ...], "seed": n}: ONE live object.  A step is a configuration call
+    (["cfg", N, cp, u]: constructor, accepted or rejected set_parameters - checked: accepted/rejected, the public parameters)
+    or a use (["use", L, k, 0]: a full chain on the live object: modulate(x_k) ... equalize_data).  Results of earlier calls
+    are kept in one ledger for the whole history.  Returns ([(what, fid)], chains executed, index of the failing step or -1)."""
     from pyphysim.modulators.ofdm import OFDM
     o = None
     okc = 0
     done = []
+    ledger = Ledger()
     for k, st in enumerate(h["steps"]):
         c = st["call"]["out"]["call"]
+        done.append(tuple(c[1:]) if c[0] == "cfg" else ("use", c[1]))
+        if c[0] == "use":
+            for ch in st["chains"]:
+                ch["seed"] = h.get("seed", 0)
+                bad, n = check_chain(ch, o, ledger)
+                okc += n
+                if bad:
+                    return [(f"history {done}: chain on the live object: {w}", fid) for w, fid, _ in bad[:1]], okc, k
+            continue
         acc = st["call"]["out"]["accepted"]
-        done.append(tuple(c))
+        before = None if o is None else (o.fft_size, o.cp_size, o.num_used_subcarriers)
         try:
             if o is None:
-                o = OFDM(*c)
+                o = OFDM(*c[1:])
                 raised = False
             else:
                 try:
-                    o.set_parameters(*c)
+                    o.set_parameters(*c[1:])
                     raised = False
                 except ValueError:
                     raised = True
         except Exception as ex:
             return [(f"history {done}: call raised {type(ex).__name__}: {ex}", None)], okc, k
         if raised == acc:
-            return [(f"history {done}: set_parameters{tuple(c)} {'rejected' if raised else 'accepted'}, specified "
+            return [(f"history {done}: set_parameters{tuple(c[1:])} {'rejected' if raised else 'accepted'}, specified "
                      f"{'accepted' if acc else 'rejected (ValueError)'}", None)], okc, k
         got = [int(o.fft_size), int(o.cp_size), int(o.num_used_subcarriers)]
         if got != st["call"]["out"]["want"]:
             return [(f"history {done}: object holds (fft, cp, used) = {got}, the history demands {st['call']['out']['want']}"
-                     + ("" if acc else " (a rejected set_parameters must leave the object unchanged)"), None)], okc, k
-        for ch in st["chains"]:
-            ch["seed"] = h.get("seed", 0)
-            bad, n = check_chain(ch, o)
-            okc += n
-            if bad:
-                return [(f"history {done}: chain on the live object: {w}", fid) for w, fid, _ in bad[:1]], okc, k
+                     + ("" if acc else " (RejectedChangesNothing: a rejected set_parameters must leave the object unchanged)"),
+                     None)], okc, k
+        if not acc and before is not None and list(before) != got:
+            return [(f"history {done}: RejectedChangesNothing: parameters changed by a rejected call", None)], okc, k
+    try:
+        ledger.verify()
+    except Bad as b:
+        return [(f"history {done}: {b.what}", None)], okc, len(h["steps"]) - 1
     return [], okc, -1
 
 
@@ -418,18 +498,21 @@ def chains(emitted):
             live.setdefault(tlc.json.dumps(m["input"]["hist"]), []).append(c)
         else:
             out.append(c)
-    # a history = a maximal sequence of calls; every prefix has its own call edge and its own chains
-    longest = max([len(e["hist"]) for e in calls.values()], default=0)
+    # a history = a maximal sequence of calls (no emitted history extends it); every prefix has its own call edge and,
+    # when it ends with a use, its own chain
+    allh = {tuple(tlc.json.dumps(x) for x in e["hist"]) for e in calls.values()}
+    inner = {h[:-1] for h in allh}
     hists = []
     for k, e in sorted(calls.items()):
-        if len(e["hist"]) != longest:
+        if tuple(tlc.json.dumps(x) for x in e["hist"]) in inner:
             continue
         steps = []
-        for n in range(1, longest + 1):
+        for n in range(1, len(e["hist"]) + 1):
             pk = tlc.json.dumps(e["hist"][:n])
-            if pk not in calls or pk not in live:
+            isuse = e["hist"][n - 1][0] == "use"
+            if pk not in calls or (isuse and len(live.get(pk, ())) != 1):
                 raise tlc.TlcError(f"history prefix {pk} was not emitted completely")
-            steps.append({"call": calls[pk], "chains": live[pk]})
+            steps.append({"call": calls[pk], "chains": live[pk] if isuse else []})
         hists.append({"steps": steps})
     return out, stars, hists
 
@@ -465,6 +548,7 @@ def _tlc_cached(cfg, defs, timeout):
 def partition(job):
     """runs in a worker process: returns a picklable summary"""
     kw = dict(job["model"])
+    SHAPE_OBS.clear()
     cfg, defs = model(**kw)
     r = _tlc_cached(cfg, defs, job.get("timeout", 1700))
     res = {"label": job["label"], "generated": r.generated, "distinct": r.distinct, "depth": r.depth,
@@ -501,7 +585,7 @@ def partition(job):
     for h in hists:
         h["seed"] = kw.get("seed", 0)
         bad, okc, k = check_history(h)
-        calls_ = [tuple(st["call"]["out"]["call"]) for st in h["steps"]]
+        calls_ = [tuple(st["call"]["out"]["call"][:3 if st["call"]["out"]["call"][0] == "use" else 4]) for st in h["steps"]]
         res["histories"] = res.get("histories", 0) + 1
         res["chains"] += sum(1 + len(c["rcv"]) for st in h["steps"] for c in st["chains"])
         res["ok"] += okc
@@ -510,15 +594,17 @@ def partition(job):
             res["viol"].append((what, fid, {"history": {"steps": h["steps"][:k + 1], "seed": h["seed"]}}))
         if bad == [] and res["sample"] is None:
             res["sample"] = {"history": calls_, "accepted": [st["call"]["out"]["accepted"] for st in h["steps"]],
-                             "demanded_parameters_after_each_call": [st["call"]["out"]["want"] for st in h["steps"]]}
+                             "demanded_parameters_after_each_call": [st["call"]["out"]["want"] for st in h["steps"]],
+                             "frame_laws_per_call": [st["call"]["req"] for st in h["steps"]]}
+    res["shape_obs"] = dict(SHAPE_OBS)
     return res
 
 
 def dev_job(job):
     dev, configs, allowed = job
     if dev in HIST_DEVS:
-        cfg, defs = model(histvalid=configs, histbad=HIST_BAD[:2], histmax=3, lenmode="isi", patmode="dense", laymode="none",
-                          dev=[dev], emit=False)
+        cfg, defs = model(histvalid=configs, histbad=HIST_BAD[:2], histmax=3, usemax=2, lenmode="pair", patmode="dense",
+                          laymode="none", dev=[dev], emit=False)
     else:
         cfg, defs = model(configs=configs, mapffts=[4, 8], lenmode="two", patmode="dense", laymode="three", dev=[dev],
                           emit=False)
@@ -575,8 +661,17 @@ def plan(tier, seed):
         add("tap-sweep", pow2, 4, 1.0, cost_basis, lenmode="two", patmode="dense", ndense=1, laymode="basis", block=True)
         add("non-pow2", np2, 1, 1e6, lenmode="two", patmode="dense", ndense=1, laymode="three", block=True)
         # ONE live object: every history of 3 calls over 5 valid + 4 invalid parameter sets, full chain after every call
-        jobs.append({"label": "history", "w": 1e11, "model": dict(histvalid=HIST_VALID, histbad=HIST_BAD, histmax=3, seed=seed,
+        jobs.append({"label": "history", "w": 1e11, "model": dict(histvalid=HIST_VALID, histbad=HIST_BAD, histmax=3, usemax=1, seed=seed,
                                                                    lenmode="isi", patmode="dense", ndense=1, laymode="one")})
+        # repeated modulate ... equalize chains on one object: every sequence of 3 uses over the lengths {u-1, u+1, 2u}
+        # (one / two symbols, full and partial, same symbol count) for every configuration of fft <= 4 and four of fft 8
+        jobs.append({"label": "uses", "w": 9e10, "model": dict(
+            histfirst=configs_of([2, 4]) + [(8, 2, 4), (8, 3, 8), (8, 0, 6), (8, 8, 2)], histmax=1, usemax=3, seed=seed,
+            lenmode="uses", patmode="dense", ndense=1, laymode="one")})
+        # uses before and after a (possibly rejected) reconfiguration: 2 uses {2u, u+1}, call, 2 uses
+        jobs.append({"label": "reuse", "w": 8e10, "model": dict(
+            histfirst=HIST_VALID, histvalid=[(8, 2, 4), (4, 1, 4)], histbad=[(8, 1, 3)], histmax=2, usemax=2, seed=seed,
+            lenmode="pair", patmode="dense", ndense=1, laymode="none")})
     else:
         p16 = configs_of([16])
         # fft 16: every length, complete data basis; every tap layout of <= 3 taps; complete tap basis, block-static
@@ -594,10 +689,17 @@ def plan(tier, seed):
         bad8 = HIST_BAD + [(4, 1, 5), (8, 0, 10), (4, -1, 2), (2, 0, 1)]
         for i, first in enumerate(split(pow2, 5)):
             jobs.append({"label": f"history2/{i}", "w": 1e10, "model": dict(
-                histfirst=first, histvalid=pow2, histbad=bad8, histmax=2, seed=seed, lenmode="isi", patmode="dense", ndense=1, laymode="one")})
+                histfirst=first, histvalid=pow2, histbad=bad8, histmax=2, usemax=1, seed=seed, lenmode="isi", patmode="dense", ndense=1, laymode="one")})
         for i, c in enumerate(HIST_VALID):
             jobs.append({"label": f"history4/{i}", "w": 1e10, "model": dict(
-                histfirst=[c], histvalid=HIST_VALID, histbad=HIST_BAD, histmax=4, seed=seed, lenmode="isi", patmode="dense", ndense=1, laymode="none")})
+                histfirst=[c], histvalid=HIST_VALID, histbad=HIST_BAD, histmax=4, usemax=1, seed=seed, lenmode="isi", patmode="dense", ndense=1, laymode="none")})
+        for i, first in enumerate(split(pow2, 4)):   # every sequence of 3 uses for every configuration of fft <= 8
+            jobs.append({"label": f"uses/{i}", "w": 1e10, "model": dict(
+                histfirst=first, histmax=1, usemax=3, seed=seed, lenmode="uses", patmode="dense", ndense=1, laymode="one")})
+        for i, c in enumerate(HIST_VALID):           # 2 uses, call, 2 uses, call, 2 uses
+            jobs.append({"label": f"reuse/{i}", "w": 1e10, "model": dict(
+                histfirst=[c], histvalid=HIST_VALID[:3], histbad=HIST_BAD[:2], histmax=3, usemax=2, seed=seed,
+                lenmode="pair", patmode="dense", ndense=1, laymode="none")})
     jobs.sort(key=lambda j: -j["w"])
     return jobs
 
@@ -643,6 +745,10 @@ def run(ctx):
         ctx.trace_done(res["chains"])
         nchains += res["chains"]
         ctx.notes["layouts_not_equalised"] = ctx.notes.get("layouts_not_equalised", 0) + res["excluded"]
+        ctx.notes["histories_replayed"] = ctx.notes.get("histories_replayed", 0) + res.get("histories", 0)
+        for k, v in res.get("shape_obs", {}).items():   # observation, not a verdict: the call changed the SHAPE of its argument
+            obs = ctx.notes.setdefault("calls_that_reshaped_their_argument", {})
+            obs[k] = obs.get(k, 0) + v
         if res["sample"]:
             ctx.sample(res["sample"], limit=3)
         for what, fid, case in res["viol"]:
